@@ -968,7 +968,13 @@ class AsyncFIXConnection:
                     return
 
             if msg.msg_type == FMsg.LOGON:
-                await self._process_logon(msg)
+                if self._connection_state in {
+                    ConnectionState.LOGON_INITIAL_RECV,
+                    ConnectionState.LOGON_INITIAL_SENT,
+                }:
+                    await self._process_logon(msg)
+                # Logon() inside of established session changes nothing, it is
+                #   only a part of the message sequence
             elif msg.msg_type == FMsg.SEQUENCERESET:
                 is_seqreset_applied = await self._process_seqreset(msg)
             elif msg.msg_type == FMsg.LOGOUT:
